@@ -25,7 +25,15 @@ class document(Environment, SectionUtils):
             self.ownerDocument.context.counters[name].setcounter(value-1)
 
         return res
- 
+
+    def digest(self, tokens):
+        Environment.digest(self, tokens)
+        # A body without any paragraph break is not grouped into paragraphs,
+        # but it is running text all the same: merge it and apply the
+        # character substitutions
+        if self.macroMode != Environment.MODE_END:
+            self.normalize(self.ownerDocument.charsubs)
+
     @property
     def index(self):
         idx = self.getElementsByTagName(['theindex','printindex'])
